@@ -593,7 +593,7 @@ def fmt_equal(st, a, b):
             else:
                 raise Unsupported('format! argument of type ' + type(x).__name__)
         return z3.And(cs) if cs else z3.BoolVal(True)
-    la, lb = _leading_literal(ta), _leading_literal(tb)
+    la, lb = _leading_text(a.parts), _leading_text(b.parts)
     if la and lb and not la.startswith(lb) and not lb.startswith(la):
         return z3.BoolVal(False)
     raise Unsupported('comparison of strings from different format! templates')
@@ -611,6 +611,22 @@ def _leading_literal(tpl):
     return bytes(tpl[1:1 + n])
 
 
+def _leading_text(parts):
+    """known leading text of a format! string: the template's leading literal, or - when the template starts with an
+    argument that is itself a literal string (`format!("{PREFIX}{n}")` with a const PREFIX) - that argument's text"""
+    tpl, vals = parts
+    lit = _leading_literal(tpl)
+    if lit:
+        return lit
+    if vals:
+        x = vals[0][1]
+        if isinstance(x, Ptr):
+            x = None
+        if isinstance(x, Str) and x.parts is None and x.text is not None:
+            return x.text.encode()
+    return b''
+
+
 def str_equal(st, a, b):
     if a.parts is not None and b.parts is not None:
         return fmt_equal(st, a, b)
@@ -618,7 +634,7 @@ def str_equal(st, a, b):
         other = b if a.parts is not None else a
         mine = a if a.parts is not None else b
         if other.text is not None:
-            lit = _leading_literal(mine.parts[0])
+            lit = _leading_text(mine.parts)
             if lit and not other.text.encode().startswith(lit):
                 return z3.BoolVal(False)
             raise Unsupported('comparison of a format! string with a literal')
@@ -671,3 +687,8 @@ def m_boxed_dyn_fn(c):
     if t is None:
         raise Unsupported('boxed dyn Fn with unknown result type')
     return c.st.fresh(t, c.st.fresh_name('dynfn'))
+
+
+@model('RangeInclusive::new', 'std::ops::RangeInclusive::new', 'core::ops::RangeInclusive::new')
+def m_range_inclusive_new(c):
+    return Struct('std::ops::RangeInclusive', {0: c.args[0], 1: c.args[1], 2: z3.BoolVal(False)})
